@@ -3,7 +3,7 @@ import core, findings, cleanworlds as cw
 from gen import Gen
 from suites import run_suite
 
-LEAN_MODULES = ['GoSnaps.Props.C09', 'GoSnaps.Props.C05Clean', 'GoSnaps.Props.Tie.TestID', 'GoSnaps.Props.Tie.CleanIO', 'GoSnaps.Props.Tie.CleanTopIO1', 'GoSnaps.Props.Tie.CleanTopIO2', 'GoSnaps.Props.Tie.CleanTopIO3', 'GoSnaps.Props.Tie.CleanTopIO', 'GoSnaps.Props.Tie.EndToEndClean', 'GoSnaps.Props.Tie.EndToEndClean2', 'GoSnaps.Props.Tie.EndToEndSkip']
+LEAN_MODULES = ['GoSnaps.Props.C09', 'GoSnaps.Props.C05Clean', 'GoSnaps.Props.Tie.TestID', 'GoSnaps.Props.Tie.CleanIO', 'GoSnaps.Props.Tie.CleanTopIO1', 'GoSnaps.Props.Tie.CleanTopIO2', 'GoSnaps.Props.Tie.CleanTopIO3', 'GoSnaps.Props.Tie.CleanTopIO', 'GoSnaps.Props.Tie.EndToEndClean', 'GoSnaps.Props.Tie.EndToEndClean2', 'GoSnaps.Props.Tie.EndToEndSkip', 'GoSnaps.Props.Tie.Wrappers']
 ORACLES = {'C07': [('matched-entries-kept', cw.o_matched_kept)],
            'C09': [('stale-reported-and-removed-only-in-clean-mode', cw.o_stale_reported),
                    ('only-obsolete-entries-are-removed', cw.o_matched_kept)],
